@@ -161,7 +161,7 @@ func henvDiff(w *l1World, pre, post c01Frame) string {
 
 func TestC01Rapid(t *testing.T) {
 	rec := evid.For("C01")
-	runRapid(t, 150, 5000, func(rt *rapid.T) {
+	runRapid(t, 100, 5000, func(rt *rapid.T) {
 		c := rec.Begin()
 		w := newL1World(rt, l1Cfg{weights: c01Weights, maxBridges: 4, withFee: true, badCfgProb: 5, manyBridges: true,
 			periods: []time.Duration{time.Second, time.Minute, time.Hour, 1<<63 - 1}})
